@@ -439,43 +439,50 @@ def search(mod, args):
         unconfirmed = []
         for n, (sig, lst) in enumerate(list(new.items())[:4]):
             lst.sort(key=lambda x: len(x[0]["tape"]))
-            v, viol = lst[0]
-            cfg = cfgs[v["cfgname"]]
-            budget = 40 if args.tier == "quick" else 180
-            try:
-                if ":livelock:" in sig:
-                    raise RuntimeError("not shrunk: every evaluation of a livelock costs the full step limit")
-                sh = pool.submit(_shrink, mod.__name__, v["cfgname"], cfg, v["tape"], sig, budget, 3000).result(
-                    timeout=budget + 120)
-            except Exception as e:
-                sh = {"tape": v["tape"], "evals": 0, "reproduced": True, "error": str(e)}
-            path = os.path.join(os.environ.get("VERIF_REPLAY_DIR") or os.path.join(VERIF, "replays"),
-                                f"{prop}-{args.seed}-{n}.json")
-            write_replay(path, mod, v["cfgname"], cfg, v["seed"], sh["tape"], viol, v["sample"], v["tail"],
-                         {"from": len(v["tape"]), "to": len(sh["tape"]), "evals": sh["evals"]})
-            # confirm in a fresh process
-            env = dict(os.environ)
-            try:
-                cp = subprocess.run([PY, os.path.join(VERIF, "check"), prop, "--replay", path],
-                                    capture_output=True, text=True, timeout=600, env=env, cwd=VERIF)
-                ok = cp.returncode == 1 and f"sig={sig}" in cp.stdout
-            except subprocess.TimeoutExpired:
-                ok = False
-                cp = None
-            if not ok:
-                # fall back to the unshrunk tape before giving up
-                write_replay(path, mod, v["cfgname"], cfg, v["seed"], v["tape"], viol, v["sample"], v["tail"],
-                             {"from": len(v["tape"]), "to": len(v["tape"]), "evals": 0, "note": "shrunk tape did not replay"})
+            # A run may have depended on something an EARLIER run left behind in its worker process (a module-level cache in the
+            # code under test): its tape alone then does not reproduce.  Try the next candidates of the same signature before
+            # giving up; only a replay that fails again in a fresh process is reported.
+            last = None
+            for cand, (v, viol) in enumerate(lst[:6]):
+                cfg = cfgs[v["cfgname"]]
+                budget = 40 if args.tier == "quick" else 180
+                try:
+                    if ":livelock:" in sig:
+                        raise RuntimeError("not shrunk: every evaluation of a livelock costs the full step limit")
+                    sh = pool.submit(_shrink, mod.__name__, v["cfgname"], cfg, v["tape"], sig, budget, 3000).result(
+                        timeout=budget + 120)
+                except Exception as e:
+                    sh = {"tape": v["tape"], "evals": 0, "reproduced": True, "error": str(e)}
+                path = os.path.join(os.environ.get("VERIF_REPLAY_DIR") or os.path.join(VERIF, "replays"),
+                                    f"{prop}-{args.seed}-{n}.json")
+                write_replay(path, mod, v["cfgname"], cfg, v["seed"], sh["tape"], viol, v["sample"], v["tail"],
+                             {"from": len(v["tape"]), "to": len(sh["tape"]), "evals": sh["evals"], "candidate": cand})
+                # confirm in a fresh process
+                env = dict(os.environ)
                 try:
                     cp = subprocess.run([PY, os.path.join(VERIF, "check"), prop, "--replay", path],
                                         capture_output=True, text=True, timeout=600, env=env, cwd=VERIF)
                     ok = cp.returncode == 1 and f"sig={sig}" in cp.stdout
                 except subprocess.TimeoutExpired:
                     ok = False
-            if ok:
-                confirmed.append((sig, path, viol, len(lst), sh))
+                    cp = None
+                if not ok:
+                    # fall back to the unshrunk tape before giving up
+                    write_replay(path, mod, v["cfgname"], cfg, v["seed"], v["tape"], viol, v["sample"], v["tail"],
+                                 {"from": len(v["tape"]), "to": len(v["tape"]), "evals": 0, "note": "shrunk tape did not replay", "candidate": cand})
+                    try:
+                        cp = subprocess.run([PY, os.path.join(VERIF, "check"), prop, "--replay", path],
+                                            capture_output=True, text=True, timeout=600, env=env, cwd=VERIF)
+                        ok = cp.returncode == 1 and f"sig={sig}" in cp.stdout
+                    except subprocess.TimeoutExpired:
+                        ok = False
+                last = (sig, path, viol)
+                if ok:
+                    confirmed.append((sig, path, viol, len(lst), sh))
+                    break
             else:
-                unconfirmed.append((sig, path, viol))
+                if last is not None:
+                    unconfirmed.append(last)
 
     wall = time.time() - t0
     args.budget_info = {"time_budget_s": round(budget, 1), "time_budget_reached": budget_reached, "stopped_early_on_violations": stopped_early}
